@@ -278,6 +278,11 @@ class ScriptedFailure(RuntimeError):
     pass
 
 
+class TrialLimit(BaseException):
+    """raised by the recording solver when one call keeps asking for solves far beyond reject+1; a BaseException so
+    that `except Exception` inside step() cannot swallow it (otherwise a non-terminating loop would hang the check)"""
+
+
 class RecSolver:
     """user-supplied linear solver. `plan(call, trial, nsolve)` -> ("raise",) | ("scale", s) | ("target", fn)"""
 
@@ -289,8 +294,11 @@ class RecSolver:
         self.log = []
         self.opt = None
         self.module = None
+        self.limit = 10 ** 9
 
     def __call__(self, A, b):
+        if self.trial > self.limit:
+            raise TrialLimit(f"{self.trial} solves in one call")
         act = self.plan(self.call, self.trial, self.nsolve)
         ev = {"nsolve": self.nsolve, "trial": self.trial, "params": [raw(p) for p in self.module.parameters()],
               "opt_loss": getattr(self.opt, "loss", None), "opt_last": getattr(self.opt, "last", None),
@@ -634,6 +642,7 @@ def run_optimizer_scenario(ctx: Ctx, scn, collect):
         opt = P.optim.GN(module, solver=solver, kernel=make_kernels(kspec), vectorize=scn.get("vectorize", True))
     solver.opt = opt
     reject = scn.get("reject", 0)
+    solver.limit = reject + 40
     tl = lambda: true_loss(module, inp, target, kspec)
     lie = scn["family"] in ("so3", "se3", "mixed")
 
@@ -660,6 +669,10 @@ def run_optimizer_scenario(ctx: Ctx, scn, collect):
         with contextlib.redirect_stdout(io.StringIO()):
             try:
                 ret = opt.step(inp, target)
+            except TrialLimit:
+                ctx.fail(scn, f"trials: a call made more than {reject + 40} trials with reject={reject} (at most reject+1 allowed); "
+                              f"the loop does not terminate (call {call})")
+                return len(ctx.failures) - n0
             except ScriptedFailure as e:
                 exc = e
             except Exception as e:
@@ -782,7 +795,7 @@ def run_optimizer_scenario(ctx: Ctx, scn, collect):
                 dmag = float(prev["D"].abs().max()) if "D" in prev else 0.0
                 # Euclidean: (p + D) - D; Lie: Exp(-D)·Exp(D)·X, where the angle's own rounding (eps·|D| rad) acts on a
                 # translation of size |D|: eps·|D|²
-                tolp = ((64 * eps * (1.0 + min(dmag, 1e140)) ** 2) if lie else (16 * eps * (param_mag(sol[t - 1]["params"]) + dmag))) + 1e-300
+                tolp = ((64 * eps * (1.0 + min(dmag + param_mag(sol[t - 1]["params"]), 1e140)) ** 2) if lie else (16 * eps * (param_mag(sol[t - 1]["params"]) + dmag))) + 1e-300
                 dist = param_dist(before, sol[t - 1]["params"])
                 if dist > tolp:
                     fail(f"restore: after rejected trial {t - 1} the parameters differ from those before the trial by "
@@ -1083,7 +1096,7 @@ def engineered_quality_case(rng, spec, dtype, exact):
         if den == 0:
             b += 0.5
             den = -(a * (2 * b + a))
-        tq = rng.choice([high, low, high + 2.0 ** -12, low - 2.0 ** -14, high - 2.0 ** -12, low + 2.0 ** -14, 0.0, -1.0, 4.0])
+        tq = rng.choice([high, high, low, low, high + 2.0 ** -12, low - 2.0 ** -14, high - 2.0 ** -12, low + 2.0 ** -14, 0.0, -1.0, 4.0])
         loss = rng.choice([1.0, 8.0, 0.25])
         last = loss + tq * den
         J = torch.tensor([[1.0]], dtype=dt)
@@ -1451,7 +1464,7 @@ def run(ctx: Ctx):
     else:
         scr = script_scenarios(rng, list(range(0, 17)), ["constant", "adaptive", "trust"])
     run_opt_stream(ctx, scr)
-    scns = [gen_scenario(rng, ctx.quick, "lm") for _ in range(ctx.pick(110, 1300))]
+    scns = [gen_scenario(rng, ctx.quick, "lm") for _ in range(ctx.pick(120, 1300))]
     scns += [gen_scenario(rng, ctx.quick, "gn") for _ in range(ctx.pick(25, 250))]
     run_opt_stream(ctx, scns)
 
